@@ -23,7 +23,8 @@ CHECKS = {
         text="Exploration, exhaustive in the thorough tier: every 32-bit value is assembled for all 12 immediate-taking mnemonics at "
              "directive level and for LDAC/BR in both spellings at text level, through the real Lexer/Parser/CodeGen/emitProgramBin "
              "path, and each emitted chain is decoded with the ISA prefix rule (opcode, delivered value, chain boundaries, padding). "
-             "The quick tier covers all boundary windows, all |v| < 2^20 and ~2e7 strided values.",
+             "The quick tier covers all boundary windows, all |v| < 2^20 and ~5e7 strided values, each in five written forms: unsigned, "
+             "signed, -n for every value (n up to 2^32-1) and the first and third of these with one to four leading zeros.",
         note="Trusted: the 8-line prefix decoder in harness/h_asm.cpp. Text-level completeness is for two of twelve mnemonics.",
         ref="4/C04"),
     "C05": dict(
